@@ -3,7 +3,7 @@
    All theorems quantify over every geometry, every number of threads, every program and
    EVERY schedule (list of Run tid | Tick dt) of the program-counter machine in
    Model/LeapArrayConc.v, whose steps are the atomic accesses of the Go code. *)
-From SG Require Import Base.Prelude Base.GoInt Model.LeapArrayConc Proofs.LeapArrayConcProofs Proofs.LeapArrayConcSafetyProofs Proofs.LeapArrayConcTermProofs.
+From SG Require Import Base.Prelude Base.GoInt Model.LeapArrayConc Proofs.LeapArrayConcProofs Proofs.LeapArrayConcSafetyProofs Proofs.LeapArrayConcTermProofs Proofs.LeapArrayConcExactProofs.
 
 (* Every total returned by CountWithTime is at most the sum of the amounts (of that event)
    whose atomic add has executed. Since the statement holds for every schedule it holds in
@@ -171,6 +171,62 @@ Example C09_termination_nonvacuous :
   useful_steps g sched_roll (init g T0 progs3) = 24%nat.
 Proof. cbv zeta. repeat split; vm_compute; reflexivity. Qed.
 
+(* ------------------------------------------------------------------------------------------
+   Exactness.  no_overlap g sched c0 (Model/LeapArrayConc.v): in no configuration the schedule passes
+   through is there a thread that has decided to roll a slot over (parked before the TryLock, or inside
+   the critical section) while a DIFFERENT thread has a record operation in progress on the same slot.
+   quiet g c i k: no thread is inside a reset of slot i that changes its start and has already zeroed
+   counter k (in particular: every configuration in which all threads have finished).
+   Then counter k of slot i holds exactly the sum of all executed adds of event k whose own timestamp
+   selects the bucket the slot currently carries: nothing lost, nothing duplicated.  The statement is
+   about the counters (the sums a subsequent read adds up); what a reader that runs concurrently with
+   recorders returns is bounded by C09_no_invention. *)
+Theorem C09_exact_when_disjoint : forall g t0 progs sched,
+  0 < g_bl g -> (2 <= g_n g)%nat -> g_zero_first g = true ->
+  progs_nonneg progs -> total_amt progs < two63 ->
+  no_stall g sched (init g t0 progs) -> no_overlap g sched (init g t0 progs) ->
+  let c := exec g sched (init g t0 progs) in
+  forall i k, (k < n_events)%nat -> quiet g c i k ->
+  cntv (nth i (slots (sh c)) dslot) k = Esum (credited_own i k (s_start (nth i (slots (sh c)) dslot))) (adds (sh c)).
+Proof. exact exact_when_disjoint. Qed.
+
+Theorem C09_exact_when_disjoint_final : forall g t0 progs sched,
+  0 < g_bl g -> (2 <= g_n g)%nat -> g_zero_first g = true ->
+  progs_nonneg progs -> total_amt progs < two63 ->
+  no_stall g sched (init g t0 progs) -> no_overlap g sched (init g t0 progs) ->
+  let c := exec g sched (init g t0 progs) in
+  all_done c = true ->
+  forall i k, (k < n_events)%nat ->
+  cntv (nth i (slots (sh c)) dslot) k = Esum (credited_own i k (s_start (nth i (slots (sh c)) dslot))) (adds (sh c)).
+Proof. exact exact_final. Qed.
+
+(* The ghost contribution lists that C09_right_bucket_window and C09_expired_invisible speak about describe
+   the real counters: in every reachable configuration a counter equals the sum of its contribution list. *)
+Theorem C09_ghost_sound : forall g t0 progs sched,
+  progs_nonneg progs -> total_amt progs < two63 ->
+  let c := exec g sched (init g t0 progs) in
+  forall i k, cntv (nth i (slots (sh c)) dslot) k = sumZ (map fst (contribv (nth i (slots (sh c)) dslot) k)).
+Proof. exact ghost_sound. Qed.
+
+(* non-vacuity: 5 recorded at T0; the clock advances by one interval; thread 1 (at T0+2000, slot 0) and
+   thread 2 (at T0+3000, slot 1) both have to roll their slot over and contend for the lock (thread 2's
+   TryLock fails once); nobody overlaps a rollover of its own slot, nobody is stalled. Final counters 1 and 2,
+   both equal to the credited adds; the reader returns 3. *)
+Definition progs4 : list (list op) := [[ORecord 0 5]; [ORecord 0 1]; [ORecord 0 2]; [ORead 0]].
+Definition sched_disjoint : schedule :=
+  rep 4 (Run 0%nat) ++ [Tick 2000] ++ [Run 1%nat] ++ [Tick 1000] ++ [Run 2%nat] ++ rep 4 (Run 1%nat) ++ rep 4 (Run 2%nat)
+  ++ rep 10 (Run 1%nat) ++ rep 18 (Run 2%nat) ++ rep 12 (Run 3%nat).
+
+Example C09_exact_when_disjoint_nonvacuous :
+  let g := g2 true in
+  let c := exec g sched_disjoint (init g T0 progs4) in
+  no_stall g sched_disjoint (init g T0 progs4) /\ no_overlap g sched_disjoint (init g T0 progs4) /\
+  all_done c = true /\
+  map (fun x => (s_start x, cntv x 0)) (slots (sh c)) = [(T0 + 2000, 1); (T0 + 3000, 2)] /\
+  Esum (credited_own 0 0 (T0 + 2000)) (adds (sh c)) = 1 /\ Esum (credited_own 1 0 (T0 + 3000)) (adds (sh c)) = 2 /\
+  Esum (on_kind 0) (adds (sh c)) = 8 /\ map r_total (reads (sh c)) = [3].
+Proof. cbv zeta. repeat split; vm_compute; reflexivity. Qed.
+
 Print Assumptions C09_no_invention.
 Print Assumptions C09_right_bucket.
 Print Assumptions C09_right_bucket_window.
@@ -179,3 +235,6 @@ Print Assumptions C09_expired_invisible_refuted_old_order.
 Print Assumptions C09_termination.
 Print Assumptions C09_termination_bounded_work.
 Print Assumptions C09_termination_no_retry.
+Print Assumptions C09_exact_when_disjoint.
+Print Assumptions C09_exact_when_disjoint_final.
+Print Assumptions C09_ghost_sound.
